@@ -527,6 +527,66 @@ def run_task(key, excl, body):
     return per_call
 
 
+def explore_consumers(ctx, n):
+    """the real consumer of the queue: pool.Worker.run taking real Tasks (plain and yielding ones, several FIFOs, some exclusive) until the
+    queue is empty; afterwards nothing is queued, deferred or running, so every size must be 0 and a node whose FIFO this is must be idle"""
+    from alpenhorn.scheduler import FairMultiFIFOQueue, pool
+    from alpenhorn.scheduler.task import Task
+
+    rng = ctx.rng
+    for i in range(n):
+        queue = FairMultiFIFOQueue()
+        keys = [f"n:k{j}" for j in range(rng.randint(1, 3))]
+        ran = []
+        plan = []
+        for t in range(rng.randint(1, 6)):
+            nyield = rng.choice([0, 0, 1, 1, 2, 3])
+            key = rng.choice(keys)
+            excl = rng.random() < 0.3
+            plan.append((key, excl, nyield))
+
+            def body(task, _t=t, _n=nyield):
+                for step in range(_n):
+                    ran.append((_t, step))
+                    yield
+                ran.append((_t, "end"))
+
+            def plain(task, _t=t):
+                ran.append((_t, "end"))
+
+            Task(body if nyield else plain, queue, key, exclusive=excl, name=f"t{t}")
+        pool.global_abort.clear()
+        guard = 0
+        while queue.qsize and guard < 100:
+            guard += 1
+            wk = pool.Worker(queue, 0)
+            got = {"n": 0}
+
+            class QP:
+                @staticmethod
+                def get(timeout=None, _got=got, _wk=wk):
+                    if _got["n"] >= 1:
+                        _wk._worker_stop.set()
+                        return None
+                    _got["n"] += 1
+                    return queue.get(timeout=0.001)
+
+                task_done = staticmethod(queue.task_done)
+
+            wk._queue = QP
+            wk.run()
+        ctx.count("consumer-run")
+        ctx.distinct_add(("consumer", tuple(plan)))
+        sizes = {"qsize": queue.qsize, "inprogress_size": queue.inprogress_size, "deferred_size": queue.deferred_size, **{f"fifo_size({k})": queue.fifo_size(k) for k in keys}}
+        ends = sorted(t for t, s_ in ran if s_ == "end")
+        rp = {"family": "consumer", "tasks": [list(p_) for p_ in plan], "sizes": sizes, "ran": [list(r) for r in ran]}
+        if ends != list(range(len(plan))) or pool.global_abort.is_set():
+            ctx.fail("C11:delivery", f"tasks {plan}: completed {ends} (each must run to its end exactly once); abort={pool.global_abort.is_set()}", rp)
+        elif any(sizes.values()):
+            ctx.fail("C11:sizes-after-drain", f"every task has finished and the worker has stopped, but the queue reports {sizes} (a node with this FIFO would never be idle again, join() would never return)", rp)
+        pool.global_abort.clear()
+
+
 def explore_tasks(ctx, n):
     rng = ctx.rng
     tcases = []
@@ -695,6 +755,7 @@ def explore(ctx):
         ctx.broke("correspondence", f"queue: model and implementation differ on {terms[i][1]['programs']} schedule {terms[i][1]['schedule'][:40]}")
         ctx.notes.append({"differing_case": terms[i][1]})
     explore_tasks(ctx, 200 if ctx.quick() else 3000)
+    explore_consumers(ctx, 120 if ctx.quick() else 3000)
 
 
 def search(ctx):
